@@ -20,28 +20,42 @@ Kind ==
     ("crypto.ParseJWT" :> "jose") @@ ("tokenV2.Middleware" :> "jose") @@ ("iam.JAR" :> "jose") @@
     ("dpop.Parse" :> "jose") @@
     ("revocation.StatusList2021" :> "json") @@ ("revocation.expand" :> "text") @@
-    ("discovery.Register" :> "jose") @@ ("iam.AuthorizeResponse" :> "jose")
+    ("discovery.Register" :> "jose") @@ ("iam.AuthorizeResponse" :> "jose") @@
+    \* payload receivers (subscribers of the DAG): the payload of an accepted transaction, by content type.
+    \* ld = JSON-LD document whose issuer proof is the one of the unmutated document (stale after the mutation);
+    \* ldsealed = the proof is renewed over the mutated content (a peer signs with its own issuer key)
+    ("payload.vc" :> "ld") @@ ("payload.vc.resealed" :> "ldsealed") @@
+    ("payload.revocation" :> "ld") @@ ("payload.revocation.resealed" :> "ldsealed") @@
+    ("payload.did.create" :> "json") @@ ("payload.did.update" :> "json")
 
 AllEntryPoints == DOMAIN Kind
+\* entry points the DAG notifier feeds (must mirror PayloadEntryPoints in harness/drivers/robust/entries_payload_test.go)
+Subscribers == {"payload.vc", "payload.vc.resealed", "payload.revocation", "payload.revocation.resealed",
+                "payload.did.create", "payload.did.update"}
 
 JsonOps == {"type-string", "type-number", "type-bool", "type-null", "type-array", "type-object", "missing",
             "extreme-number", "truncate", "duplicate", "empty", "deep", "unusual"}
 KindOps ==
     [json   |-> JsonOps,
      jose   |-> JsonOps,
+     ld     |-> JsonOps,
+     ldsealed |-> JsonOps,
      proto  |-> {"missing", "empty", "extreme-number", "truncate", "duplicate", "type-string", "type-number", "unusual"},
      binary |-> {"truncate", "duplicate", "empty", "extreme-number", "unusual"},
      text   |-> {"truncate", "empty", "type-string", "extreme-number", "duplicate", "unusual"}]
 KindPos ==
     [json   |-> {"top", "nested", "array", "proof"},
      jose   |-> {"header", "top", "nested", "array", "proof"},
+     ld     |-> {"top", "nested", "array", "proof"},
+     ldsealed |-> {"top", "nested", "array"},
      proto  |-> {"top", "nested", "array"},
      binary |-> {"top", "array"},
      text   |-> {"top"}]
 
 \* JSON documents that carry no proof member
 NoProof == {"didnuts.NetworkDocumentValidator", "didnuts.ManagedDocumentValidator", "resolver.KeyResolver",
-            "resolver.ServiceResolver", "didweb.Resolve", "didjwk.Resolve", "pe.PresentationDefinition"}
+            "resolver.ServiceResolver", "didweb.Resolve", "didjwk.Resolve", "pe.PresentationDefinition",
+            "payload.did.create", "payload.did.update"}
 \* protobuf messages without nested messages / repeated fields
 ProtoFlat == {"v2.State", "v2.TransactionRangeQuery", "v2.TransactionPayloadQuery", "v2.TransactionPayload"}
 
@@ -53,7 +67,7 @@ NoPos == {<<"dag.ParseTransaction", "top">>, <<"dag.ParseTransaction", "nested">
 
 MCApplicable(ep, op, pos) ==
     IF op = "random"
-    THEN pos = "any" /\ Kind[ep] \in {"json", "jose", "proto", "binary"}
+    THEN pos = "any" /\ Kind[ep] \in {"json", "jose", "proto", "binary", "ld", "ldsealed"}
     ELSE /\ op \in KindOps[Kind[ep]]
          /\ pos \in KindPos[Kind[ep]]
          /\ ~(pos = "proof" /\ ep \in NoProof)
@@ -62,7 +76,9 @@ MCApplicable(ep, op, pos) ==
 
 MCStateful(ep) == ep \in {"v2.Gossip", "v2.State", "v2.TransactionListQuery", "v2.TransactionRangeQuery", "v2.TransactionPayloadQuery",
                           "v2.TransactionSet", "v2.TransactionList", "v2.TransactionPayload", "v2.Diagnostics",
-                          "discovery.Register", "revocation.StatusList2021"}
+                          "discovery.Register", "revocation.StatusList2021"} \cup Subscribers
+
+MCRedelivered(ep) == ep \in Subscribers
 
 \* behaviour generation: one behaviour per case = the state right after its Call (the real code chooses the reply)
 EmitCase == (Hist /\ pending # NoCase) => PrintT(ToJson(hist))
